@@ -420,6 +420,12 @@ std::string fileAbstract(const std::string& bytes, NifFile* model, ContentIds& c
 		JObj jb;
 		std::string tn = i < h.tidx.size() && h.tidx[i] < h.types.size() ? h.types[h.tidx[i]] : std::string("?");
 		jb.add("type", tn).add("size", (long long) sz).add("cid", cids.of(blk)).add("wrefs", wr).add("wstrs", ws);
+		// what the model that wrote the file holds in this slot (when it is at hand): the type table has to name that
+		if (model && i < model->GetHeader().GetNumBlocks()) {
+			NiObject* mb = model->GetHeader().GetBlock<NiObject>(i);
+			// (opaque blocks of unknown types carry their type name only in the header)
+			if (mb && !dynamic_cast<NiUnknown*>(mb)) jb.add("mtype", mb->GetBlockName());
+		}
 		blocks.add(jb);
 	}
 	f.add("blocks", blocks).add("walked", walked).add("end", (long long) pos);
